@@ -83,13 +83,14 @@ P_DUP = dict(
     units={'a1.vhd': [['p'], []], 'a2.vhd': [[], ['p'], ['p']], 'u.vhd': [['q'], ['q']]})
 
 P1 = "package p1 is\n  constant c1 : natural := 1;\nend package;\n"
-P2 = "package p2 is\n  constant c2 : natural := 2;\nend package;\n"
-UALL = "library lib1;\nuse lib1.all;\n\npackage u is\n  constant k : natural := p2.c2 + p1.c1;\nend package;\n"
+P2 = "package p2 is\n  constant c2 : natural := 2;\n  subtype t2 is natural range 0 to 3;\nend package;\n"
+UALL = "library lib1;\nuse lib1.all;\n\npackage u is\n  constant k : natural := p2.c2 + p1.c1;\n  subtype word is p2.t2;\nend package;\n"
+WUSER = "use work.u.all;\n\npackage w is\n  constant kw : word := 1;\nend package;\n"
 UALL_SYM = UALL.replace('p2.c2', 'p§.c2')
 P_LIB_ALL = dict(
     name='use lib.all with a package that comes and goes',
-    files=[('lib1', 'p1.vhd', [P1, '']), ('lib1', 'p2.vhd', ['', P2]), ('lib2', 'u.vhd', [UALL, UALL_SYM])],
-    units={'p1.vhd': [['p1'], []], 'p2.vhd': [[], ['p2']], 'u.vhd': [['u'], ['u']]})
+    files=[('lib1', 'p1.vhd', [P1, '']), ('lib1', 'p2.vhd', ['', P2]), ('lib2', 'u.vhd', [UALL, UALL_SYM]), ('lib2', 'w.vhd', [WUSER])],
+    units={'p1.vhd': [['p1'], []], 'p2.vhd': [[], ['p2']], 'u.vhd': [['u'], ['u']], 'w.vhd': [['w']]})
 
 N = "entity n is\nend entity;\n\narchitecture a of n is\n  signal s, t : bit;\nbegin\n  p0 : process (s)\n  begin\n    t <= s;\n  end process;\nend architecture;\n"
 N2 = N.replace('t <= s;', 't <= t;')
@@ -108,5 +109,12 @@ P_REVERSAL = dict(
     files=[('lib0', 'a.vhd', [PA_USES_B, PA_PLAIN]), ('lib0', 'b.vhd', [PB_PLAIN, PB_USES_A])],
     units={'a.vhd': [['pkg_a'], ['pkg_a']], 'b.vhd': [['pkg_b'], ['pkg_b']]})
 
-C01_PROJECTS = [P_USE_ALL, P_CONFIG, P_CONTEXT, P_DUP, P_LIB_ALL, P_UNMAPPED, P_REVERSAL]
+LONE = "entity lone is\nend entity;\n\narchitecture a of lone is\n  signal s, t : bit;\nbegin\n  p0 : process (s)\n  begin\n    t <= t;\n  end process;\nend architecture;\n"
+OTHER = "package other is\n  constant o : bit := '0';\nend package;\n"
+P_LINT = dict(
+    name='a unit with lint warnings that nothing depends on, next to an independent package',
+    files=[('lib0', 'lone.vhd', [LONE, '', LONE.replace('t <= t', 't <= s')]), ('lib0', 'other.vhd', [OTHER, ''])],
+    units={'lone.vhd': [['lone', 'lone/a'], [], ['lone', 'lone/a']], 'other.vhd': [['other'], []]})
+
+C01_PROJECTS = [P_USE_ALL, P_CONFIG, P_CONTEXT, P_DUP, P_LIB_ALL, P_UNMAPPED, P_REVERSAL, P_LINT]
 SYM_ALPHABET = 'abcdefghijklmnopqrstuvwxyzABCDEFGHIJKLMNOPQRSTUVWXYZ0123456789'
